@@ -59,6 +59,9 @@ pub struct Scenario {
     pub ops: Vec<Op>,
     /// aircraft whose record is re-derived from its own frames only (isolation)
     pub isolate: u8,
+    /// bit a set: aircraft a starts on the longitude-zone transition latitude nearest to its
+    /// start position (a few CPR steps beside it), so that its flight wanders across the boundary
+    pub snap: u8,
 }
 
 pub const RX: [(f64, f64); 7] = [(52.0, 4.0), (85.0, 10.0), (0.01, 179.9), (-33.9, 151.2), (40.0, -100.0), (0.0, 0.0), (-89.0, -179.95)];
@@ -120,8 +123,8 @@ fn op_s(nac: u8, with_time: bool) -> BoxedStrategy<Op> {
 
 pub fn scenario_s(max_ops: usize, with_time: bool) -> impl Strategy<Value = Scenario> {
     (1u8..5).prop_flat_map(move |nac| {
-        (0u8..RX.len() as u8, 0u8..RANGES.len() as u8, proptest::collection::vec((bearing_s(), 0u16..900), nac as usize), proptest::collection::vec(op_s(nac, with_time), 0..max_ops), 0..nac)
-            .prop_map(|(rx, range, start, ops, isolate)| Scenario { rx, range, start, ops, isolate })
+        (0u8..RX.len() as u8, 0u8..RANGES.len() as u8, proptest::collection::vec((bearing_s(), 0u16..900), nac as usize), proptest::collection::vec(op_s(nac, with_time), 0..max_ops), 0..nac, prop_oneof![3 => Just(0u8), 1 => 0u8..16])
+            .prop_map(|(rx, range, start, ops, isolate, snap)| Scenario { rx, range, start, ops, isolate, snap })
     })
 }
 
@@ -150,7 +153,17 @@ impl World {
         let rx = RX[s.rx as usize % RX.len()];
         let range = RANGES[s.range as usize % RANGES.len()];
         let base = if range > 0.0 && range < 1000.0 { range } else { 400.0 };
-        let truth = s.start.iter().map(|(b, pm)| refcpr::destination(rx, *b as f64, base * *pm as f64 / 1000.0)).collect();
+        let mut truth: Vec<(f64, f64)> = s.start.iter().map(|(b, pm)| refcpr::destination(rx, *b as f64, base * *pm as f64 / 1000.0)).collect();
+        for (a, t) in truth.iter_mut().enumerate() {
+            if s.snap >> a & 1 == 1 {
+                // (bearing, permille) of the start double as a small offset: -8..+8 half CPR latitude steps
+                let steps = (s.start[a].1 % 17) as f64 - 8.0;
+                let sign = if t.0 < 0.0 { -1.0 } else { 1.0 };
+                let l = t.0.abs();
+                let edge = refcpr::transitions().into_iter().min_by(|x, y| (x - l).abs().partial_cmp(&(y - l).abs()).unwrap()).unwrap();
+                t.0 = sign * (edge + steps * 360.0 / 60.0 / 131072.0 * 0.5).min(89.9);
+            }
+        }
         World { rx, range, truth, last_raw: vec![[None, None]; s.start.len()] }
     }
 }
@@ -746,7 +759,16 @@ fn step_model(model: &mut Model, b: &Built, added: Added, planes: &Airplanes, rx
         for p in 0..2 {
             match (&rec.slots[p], &c.altitudes[p]) {
                 (None, None) => {}
-                (Some(e), Some(a)) if e.yz as u64 == a.lat_cpr as u64 && e.xz as u64 == a.lon_cpr as u64 => {}
+                (Some(e), Some(a)) if e.yz as u64 == a.lat_cpr as u64 && e.xz as u64 == a.lon_cpr as u64 => {
+                    // the same coordinates: it must still be the most recent report, i.e. carry its altitude
+                    let want = e.alt.filter(|v| *v != 0);
+                    let got = a.alt.map(|v| v as i64).filter(|v| *v != 0);
+                    if want != got {
+                        let m = format!("{key}: stored {} report carries altitude {:?}, the most recent report with these coordinates carried {:?}", if p == 0 { "even" } else { "odd" }, a.alt, e.alt);
+                        fails.push(("C13/stored_report_altitude".into(), m.clone()));
+                        fails.push(("C14/report_altitude".into(), m));
+                    }
+                }
                 (e, a) => fails.push(("C13/stored_report".into(), format!("{key}: stored {} report is {:?}, the most recent one received since the last clear is {:?}", if p == 0 { "even" } else { "odd" }, a.map(|a| (a.lat_cpr, a.lon_cpr)), e.map(|e| (e.yz, e.xz))))),
             }
         }
@@ -852,7 +874,7 @@ fn invariants(planes: &Airplanes, model: &Model, fails: &mut Vec<Fail>) {
 // ---------------------------------------------------------------------------------------------
 
 fn scenario_json(s: &Scenario) -> Value {
-    json!({"kind":"history","scenario": format!("{s:?}"), "rx": s.rx, "range": s.range, "start": s.start, "isolate": s.isolate, "ops": s.ops.iter().map(op_json).collect::<Vec<_>>()})
+    json!({"kind":"history","scenario": format!("{s:?}"), "rx": s.rx, "range": s.range, "start": s.start, "isolate": s.isolate, "snap": s.snap, "ops": s.ops.iter().map(op_json).collect::<Vec<_>>()})
 }
 
 fn op_json(o: &Op) -> Value {
@@ -926,7 +948,7 @@ fn op_from(v: &Value) -> Option<Op> {
 fn scenario_from(v: &Value) -> Option<Scenario> {
     let start = v.get("start")?.as_array()?.iter().map(|p| (p[0].as_u64().unwrap_or(0) as u16, p[1].as_u64().unwrap_or(0) as u16)).collect();
     let ops = v.get("ops")?.as_array()?.iter().filter_map(op_from).collect();
-    Some(Scenario { rx: v["rx"].as_u64()? as u8, range: v["range"].as_u64()? as u8, start, ops, isolate: v["isolate"].as_u64().unwrap_or(0) as u8 })
+    Some(Scenario { rx: v["rx"].as_u64()? as u8, range: v["range"].as_u64()? as u8, start, ops, isolate: v["isolate"].as_u64().unwrap_or(0) as u8, snap: v.get("snap").and_then(|x| x.as_u64()).unwrap_or(0) as u8 })
 }
 
 /// all failures of one scenario incl. the isolation relation
@@ -961,7 +983,14 @@ pub fn replay(pid: &str, v: &Value) -> Vec<Failure> {
         let rounds = v["rounds"].as_u64().unwrap_or(2) as usize;
         return crowd_check(v["seed"].as_u64().unwrap_or(1), n, rounds).into_iter().filter(|f| f.0.starts_with(pid)).map(|(sig, msg)| Failure { sig, msg, replay: v.clone() }).collect();
     }
+    if v.get("kind").and_then(|k| k.as_str()) == Some("long_count") {
+        return long_count_check(v["seed"].as_u64().unwrap_or(1), v["n"].as_u64().unwrap_or(70_000) as usize).into_iter().filter(|f| f.0.starts_with(pid)).map(|(sig, msg)| Failure { sig, msg, replay: v.clone() }).collect();
+    }
     let Some(s) = scenario_from(v) else { return vec![] };
+    if v.get("kind").and_then(|k| k.as_str()) == Some("history_nostd") {
+        let mut worker = crate::configs::Worker::spawn();
+        return nostd_eval(&mut worker, &[s]).into_iter().filter(|f| f.0 .0.starts_with(pid)).map(|((sig, msg), _)| Failure { sig, msg, replay: v.clone() }).collect();
+    }
     let (fails, _) = eval_scenario(&s);
     fails.into_iter().filter(|f| f.0.starts_with(pid) || f.0.starts_with("C01")).map(|(sig, msg)| Failure { sig, msg, replay: v.clone() }).collect()
 }
@@ -1013,6 +1042,140 @@ pub fn crowd_check(seed: u64, n: usize, rounds: usize) -> Vec<Fail> {
         }
     }
     fails
+}
+
+/// C12 over a long life: one address heard `n` times (every payload kind, DF17 and DF18), a
+/// neighbour and non-squitter formats interleaved; the count is compared after every frame.
+pub fn long_count_check(seed: u64, n: usize) -> Vec<Fail> {
+    use crate::core::RngExt;
+    let mut rng = make_rng(seed, 0x10c0, n as u64);
+    let mut planes = Airplanes::new();
+    let (a, b) = (0x4840d6u32, 0x4840d7u32);
+    let (mut na, mut nb) = (0u64, 0u64);
+    let mut fails = vec![];
+    for i in 0..n {
+        let mut me = [0u8; 7];
+        let r = rng.bytes(7);
+        me.copy_from_slice(&r);
+        let tc = *rng.pick(&[1u8, 4, 19, 11, 12, 31, 28, 0, 7, 29, 23]);
+        set(&mut me, 1, 5, tc as u64);
+        if tc == 31 {
+            set(&mut me, 6, 3, 2 + rng.below(6));
+        }
+        if tc == 11 || tc == 12 {
+            // one fixed place: the position record is exercised without jumps
+            let e = refcpr::encode(52.3, 4.7, (i & 1) as u32);
+            set(&mut me, 22, 1, (i & 1) as u64);
+            set(&mut me, 23, 17, e.0 as u64);
+            set(&mut me, 40, 17, e.1 as u64);
+        }
+        let who = if i % 17 == 3 { b } else { a };
+        let bytes = match i % 29 {
+            5 => {
+                // a non-squitter format carrying the same address: must not count
+                let mut x = vec![0u8; 7];
+                set(&mut x, 1, 5, 11);
+                set(&mut x, 9, 24, who as u64);
+                x
+            }
+            _ => squitter(if rng.chance(1, 4) { 18 } else { 17 }, 5, who, &me),
+        };
+        let counted = i % 29 != 5;
+        let Ok(frame) = Frame::from_bytes(&bytes) else { continue };
+        planes.action(frame, (52.0, 4.0), 500.0);
+        if counted {
+            if who == a {
+                na += 1;
+            } else {
+                nb += 1;
+            }
+        }
+        for (k, want) in [(a, na), (b, nb)] {
+            let got = planes.get(icao(k)).map(|st| st.num_messages as u64).unwrap_or(0);
+            if got != want {
+                fails.push(("C12/num_messages/long".to_string(), format!("{k:06x}: num_messages {got} after {want} extended squitters (frame {i} of the history)")));
+                return fails;
+            }
+        }
+    }
+    fails
+}
+
+/// C12 in the alloc-only build of the tracker: the history is interpreted by the worker process
+/// that links both libraries without `std`; added flags, key set and message counts are compared
+/// with the model (there is no expiry in that build).
+pub fn nostd_eval(worker: &mut crate::configs::Worker, scenarios: &[Scenario]) -> Vec<(Fail, Value)> {
+    let mut reqs = vec![];
+    let mut metas = vec![];
+    for s in scenarios {
+        let mut world = World::new(s);
+        let mut frames = vec![];
+        let mut meta = vec![];
+        for op in &s.ops {
+            if let Some(b) = build(&mut world, op) {
+                meta.push((b.addr, b.squitter));
+                frames.push(bits::hex(&b.bytes));
+            }
+        }
+        reqs.push(format!("H {} {} {} {}", world.rx.0, world.rx.1, world.range, frames.join(",")));
+        metas.push(meta);
+    }
+    let answers = worker.ask(&reqs);
+    let mut out = vec![];
+    for ((s, meta), ans) in scenarios.iter().zip(metas.iter()).zip(answers.iter()) {
+        let mut counts: BTreeMap<u32, u64> = BTreeMap::new();
+        let mut lines = ans.lines().peekable();
+        let mut step = 0usize;
+        let mut fail: Option<Fail> = None;
+        while let Some(l) = lines.next() {
+            let Some(rest) = l.strip_prefix('#') else { continue };
+            let (idx, verdict) = rest.split_once(' ').unwrap_or((rest, ""));
+            let i: usize = idx.parse().unwrap_or(usize::MAX);
+            step += 1;
+            let Some((addr, squitter)) = meta.get(i).copied() else { continue };
+            if verdict == "Err" {
+                continue;
+            }
+            let added = verdict == "added=true";
+            let was = counts.contains_key(&addr);
+            if squitter {
+                *counts.entry(addr).or_insert(0) += 1;
+            }
+            if added != (squitter && !was) {
+                fail = Some(("C12/no_std/added".into(), format!("alloc-only build: frame {i} from {addr:06x} (squitter: {squitter}, tracked before: {was}) is reported added={added}")));
+                break;
+            }
+            let mut seen: BTreeMap<u32, u64> = BTreeMap::new();
+            while let Some(d) = lines.peek() {
+                if d.starts_with('#') {
+                    break;
+                }
+                let d = lines.next().unwrap();
+                if d.len() > 10 && d.as_bytes()[6] == b':' && d[7..].starts_with(" n=") {
+                    if let (Ok(k), Some(nn)) = (u32::from_str_radix(&d[..6], 16), d[10..].split(' ').next().and_then(|x| x.parse::<u64>().ok())) {
+                        seen.insert(k, nn);
+                    }
+                }
+            }
+            if seen.keys().collect::<Vec<_>>() != counts.keys().collect::<Vec<_>>() {
+                fail = Some(("C12/no_std/keys".into(), format!("alloc-only build: after frame {i} the tracked set is {:?}, the addresses heard in extended squitters are {:?}", seen.keys().map(|k| format!("{k:06x}")).collect::<Vec<_>>(), counts.keys().map(|k| format!("{k:06x}")).collect::<Vec<_>>())));
+                break;
+            }
+            if let Some((k, n)) = seen.iter().find(|(k, n)| counts[*k] != **n) {
+                fail = Some(("C12/no_std/num_messages".into(), format!("alloc-only build: {k:06x} has num_messages {n} after {} extended squitters (frame {i})", counts[k])));
+                break;
+            }
+        }
+        if fail.is_none() && step != meta.len() {
+            fail = Some(("C12/no_std/transcript".into(), format!("alloc-only build: {} frames fed, {step} steps reported", meta.len())));
+        }
+        if let Some(f) = fail {
+            let mut v = scenario_json(s);
+            v["kind"] = json!("history_nostd");
+            out.push((f, v));
+        }
+    }
+    out
 }
 
 pub fn run(ctx: &Ctx, pid: &'static str) -> ! {
@@ -1112,6 +1275,36 @@ pub fn run(ctx: &Ctx, pid: &'static str) -> ! {
             for (sig, msg) in crowd_check(ctx.seed, n, rounds) {
                 st.fail(Failure { sig, msg, replay: json!({"kind": "crowd", "n": n, "rounds": rounds, "seed": ctx.seed}) });
             }
+        }
+        // a long-lived aircraft: beyond 2^16 counted frames (2^20 in the thorough tier)
+        let n = ctx.tier.pick(90_000usize, 1_300_000);
+        st.evaluations += n as u64;
+        st.nontrivial_enum += 1;
+        st.class("long-lived aircraft");
+        for (sig, msg) in long_count_check(ctx.seed, n) {
+            st.fail(Failure { sig, msg, replay: json!({"kind": "long_count", "n": n, "seed": ctx.seed}) });
+        }
+        // the same accounting in the alloc-only build
+        {
+            use proptest::strategy::ValueTree;
+            let n = ctx.tier.pick(1500usize, 40_000);
+            let mut runner = TestRunner::new(Config { failure_persistence: None, rng_seed: RngSeed::Fixed(runner_seed(ctx.seed, 0x7c12, 0)), ..Config::default() });
+            let strat = scenario_s(30, false);
+            let mut worker = crate::configs::Worker::spawn();
+            let mut done = 0;
+            let mut reported = false;
+            while done < n {
+                let chunk: Vec<Scenario> = (0..100.min(n - done)).filter_map(|_| strat.new_tree(&mut runner).ok().map(|t| t.current())).collect();
+                done += 100.min(n - done);
+                st.evaluations += chunk.len() as u64;
+                for ((sig, msg), replay) in nostd_eval(&mut worker, &chunk) {
+                    if !reported {
+                        st.fail(Failure { sig, msg, replay });
+                        reported = true;
+                    }
+                }
+            }
+            st.class_n("history in the alloc-only build", n as u64);
         }
     }
     let mut vac = vec![];
